@@ -34,7 +34,7 @@ ASSUMPTIONS = [
 BUDGET = {"quick": dict(cases=1500, seconds=300), "thorough": dict(cases=24000, seconds=540)}
 CASE_TIMEOUT = 120
 MONITORS = {"product": False, "solvers": True}
-MONITOR_VERDICTS = ("sylvester", "greens", "nonfinite", "fp")
+MONITOR_VERDICTS = ("sylvester", "greens", "nonfinite", "fp", "kpm_bounds")
 KINDS = ["diag", "diag", "diag", "direct", "direct", "greens", "kpm", "bd", "bd_implicit", "2q"]
 
 
@@ -236,19 +236,40 @@ def _kpm_case(rng, counters):
 
     N = int(rng.integers(6, 11))
     cplx = bool(rng.integers(0, 2))
-    A = rng.normal(size=(N, N)) + (1j * rng.normal(size=(N, N)) if cplx else 0)
-    H0 = (A + A.conj().T) / 2 + np.diag(np.arange(N) * 2.0)
-    E, V = np.linalg.eigh(H0)
-    ka = int(rng.integers(1, 3))
-    vA = V[:, :ka]
+    top = bool(rng.random() < 0.2)
+    if top:
+        # the explicit states are the TOP of a spectrum whose offset is large compared with its width (N = 120..220, a
+        # group of close levels at the top): the Lanczos estimate of the upper spectral bound is then below the explicit
+        # energies unless the solver widens the interval with them
+        N = int(rng.integers(120, 221))
+        ka = int(rng.integers(4, 11))
+        offs = float(rng.choice([100.0, 1000.0]))
+        Es = np.sort(np.concatenate([[offs], offs + 0.2 + 0.6 * rng.random(N - ka - 1), offs + 0.98 + 0.02 * rng.random(ka)]))
+        Q = np.linalg.qr(rng.normal(size=(N, N)) + (1j * rng.normal(size=(N, N)) if cplx else 0))[0]
+        H0 = (Q * Es) @ Q.conj().T
+        H0 = (H0 + H0.conj().T) / 2
+        E, V = np.linalg.eigh(H0)
+        sel = slice(N - ka, N)
+    else:
+        A = rng.normal(size=(N, N)) + (1j * rng.normal(size=(N, N)) if cplx else 0)
+        H0 = (A + A.conj().T) / 2 + np.diag(np.arange(N) * 2.0)
+        E, V = np.linalg.eigh(H0)
+        ka = int(rng.integers(1, 3))
+        sel = slice(0, ka)
+    vA = V[:, sel]
     atol = float(rng.choice([1e-4, 1e-6]))
     opts = {"atol": atol}
-    starved = rng.random() < 0.25
+    if top:
+        atol = 1e-3
+        # (offset 1000 with the default eps = 0.01 is rejected by design: "the Hamiltonian has a single eigenvalue")
+        opts = {"atol": 1e-3, "eps": 1e-3 if offs > 500 else float(rng.choice([1e-2, 1e-3]))}
+    counters["kpm_explicit_top_of_spectrum"] += int(top)
+    starved = (not top) and rng.random() < 0.25
     if starved:
         # too few moments for the requested accuracy: the solver must warn (or still be accurate)
         opts = {"atol": 1e-10, "max_moments": 40}
         atol = 1e-10
-    aux = rng.random() < 0.4
+    aux = (not top) and rng.random() < 0.4
     if aux:
         opts["auxiliary_vectors"] = V[:, ka:ka + 2]
     h0 = sparse.csr_array(H0) if rng.random() < 0.5 else H0
@@ -262,7 +283,9 @@ def _kpm_case(rng, counters):
             raise Violation(f"solve_sylvester_KPM raised {type(e).__name__}: {e}")
     warned = any("did not converge" in str(w.message) for w in wlist)
     P = np.eye(N) - vA @ vA.conj().T
-    res = E[:ka].reshape(-1, 1) * Vs - Vs @ H0 - Y @ P
+    if not np.all(np.isfinite(Vs)):
+        raise Violation(f"solve_sylvester_KPM returned non-finite values (explicit states at the {'top' if top else 'bottom'} of the spectrum, N={N})")
+    res = E[sel].reshape(-1, 1) * Vs - Vs @ H0 - Y @ P
     bandwidth = float(E.max() - E.min())
     bound = 10 * atol * bandwidth * max(1.0, float(np.linalg.norm(Y)))
     rn = float(np.linalg.norm(res))
@@ -277,7 +300,7 @@ def _kpm_case(rng, counters):
     counters["kpm_with_aux"] += int(aux)
     counters["kpm_warned"] += int(warned)
     counters["kpm_starved"] += int(starved)
-    return True, ["kpm", N, cplx, ka, atol, aux], dict(kind="kpm", N=N, complex=cplx, atol=atol, aux=aux, residual=rn, bound=bound)
+    return True, ["kpm", N, cplx, ka, atol, aux, top], dict(kind="kpm", top=top, N=N, complex=cplx, atol=atol, aux=aux, residual=rn, bound=bound)
 
 
 def _bd_case(rng, counters, implicit_mode):
